@@ -907,7 +907,8 @@ def cname_of(q, aliases):
 
 # names of pure virtual slots, used only when no overrider's vtable is in the translation unit; every
 # translation unit where the name CAN be derived is checked against this table (mismatch = abort)
-KNOWN_SLOTS = {('Expression', 2): 'unparse', ('Expression', 4): 'type', ('Expression', 5): 'value'}
+KNOWN_SLOTS = {('Expression', 2): 'unparse', ('Expression', 4): 'type', ('Expression', 5): 'value',
+               ('PluginBase', 2): 'declareInterface', ('PluginBase', 3): 'createObject', ('PluginBase', 4): 'destroyObject', ('PluginBase', 5): 'executeMethod'}
 
 class Renderer:
     def __init__(self, unit, objfile, aliases=None, line_directives=True, transparent=(), enums=(), extra_structs=()):
